@@ -501,8 +501,48 @@ def shard_create_copy(desc, rec):
         import time as _t
         t0 = int(_t.time()) - 1
         err, res = None, None
+        copy_how = "outside-context"
         try:
-            res = Tdf.new(target) if which == "new" else Tdf(src).copy(target)
+            if which == "new":
+                res = Tdf.new(target)
+            else:
+                # the source may be copied from outside a context, from inside a read-only or a write context, and
+                # also after *another* Tdf object has changed the file since this one entered its context: the
+                # copy must always be the file as it is on disk at the time of the call
+                copy_how = rng.choice(["outside-context", "outside-context", "inside-readonly-context",
+                                       "inside-write-context-after-own-mutation",
+                                       "inside-readonly-context-after-mutation-by-another-object"])
+                a = Tdf(src)
+
+                def some_mutation(t):
+                    ents = [e for e in t.entries if e.type != BlockType.unusedSlot]
+                    here_ = {e.type for e in ents}
+                    k_ = next((k for k in gen.KINDS if lib.BLOCK_TYPE[k] not in here_), None)
+                    if k_ and len(ents) < len(t.entries) and all(e.type == BlockType.unusedSlot for e in t.entries[len(ents):]):
+                        t.add_block(lib.build(C.small_block_spec(rng, k_, 1), {}), "added before the copy")
+                    elif ents:
+                        t.remove_block(ents[-1].type)
+                if copy_how == "outside-context":
+                    res = a.copy(target)
+                elif copy_how == "inside-readonly-context":
+                    with a:
+                        res = a.copy(target)
+                elif copy_how == "inside-write-context-after-own-mutation":
+                    with a.allow_write():
+                        try:
+                            some_mutation(a)
+                        except Exception:
+                            pass
+                        res = a.copy(target)
+                else:
+                    with a:
+                        try:
+                            with Tdf(src).allow_write() as other:
+                                some_mutation(other)
+                        except Exception:
+                            pass
+                        res = a.copy(target)
+                rec.count(f"c17:copy:{copy_how}")
         except Exception as e:
             err = e
         t1 = int(_t.time()) + 1
@@ -549,7 +589,7 @@ def shard_create_copy(desc, rec):
                 else:
                     rec.count("oracle:C17.copy-identical-and-independent")
                     if data != open(src, "rb").read():
-                        V("copy:not-byte-identical", f"{len(data)} vs {os.path.getsize(src)}", case)
+                        V("copy:not-byte-identical", f"[{copy_how}] copy has {len(data)} bytes, source {os.path.getsize(src)}", case)
                     if os.path.samefile(src, target) or os.stat(src).st_ino == os.stat(target).st_ino:
                         V("copy:not-independent", "copy and original are the same file (link)", case)
                     else:
